@@ -9,6 +9,7 @@
 #include "mval.hpp"
 #include "refjson.hpp"
 #include "refmsgpack.hpp"
+#include "refnum.hpp"
 
 namespace vf {
 
@@ -281,6 +282,7 @@ struct HistOpt {
   size_t max_index_beyond = 2;
   size_t max_nodes = 120;      // keep documents small so that slots are recycled
   bool only_sized_strings = false;
+  bool numeric_strings_heavy = false;  // C14: a quarter of the strings are number literals of every shape
 };
 
 inline std::string hist_key(Rng& r, const HistOpt& o) {
@@ -293,6 +295,7 @@ inline std::string hist_key(Rng& r, const HistOpt& o) {
 inline MVal hist_scalar(Rng& r, const HistOpt& o) {
   static const char* strs[] = {"", "x", "hello", "a", "hello world, this is a longer string", "42", "3.14", "-7", "1e3", "true"};
   unsigned w = (unsigned)r.below(20);
+  if (o.numeric_strings_heavy && w >= 15) return MVal::str(r.coin() ? gen_int_literal(r, true) : gen_literal(r, 40, false));
   if (w < 5) return MVal::str(strs[r.below(10)]);
   if (w == 5) { std::string s = strs[r.below(10)]; s += '\0'; s += "z"; return MVal::str(s); }
   if (w == 6) return MVal::raw(gen_raw_json(r));
